@@ -34,7 +34,7 @@ enum Msg : int {
     M_HELLO_REQUEST = 0, M_CLIENT_HELLO = 1, M_SERVER_HELLO = 2, M_NEW_SESSION_TICKET = 4, M_CERTIFICATE = 11,
     M_SERVER_KEY_EXCHANGE = 12, M_CERTIFICATE_REQUEST = 13, M_SERVER_HELLO_DONE = 14, M_CERTIFICATE_VERIFY = 15,
     M_CLIENT_KEY_EXCHANGE = 16, M_FINISHED = 20,
-    M_CCS = 0x100,               // ChangeCipherSpec record; afterwards the puppet's write state is protected (keys derived on demand, sequence number 0)
+    M_CCS = 0x100,               // ChangeCipherSpec record (body 01, or Step::payload if given); afterwards the puppet's write state is protected (keys derived on demand, sequence number 0)
     M_APPDATA = 0x101,           // application_data record carrying Step::payload
     M_ALERT = 0x102,             // alert record carrying Step::payload (level, description)
     M_RAW_RECORD = 0x103,        // Step::payload is put on the wire verbatim (complete record(s) supplied by the test)
